@@ -328,9 +328,10 @@ def _magnet_oracles(uri):
     seen = set()
     for k in ('xs', 'as', 'tr', 'ws'):
         for v in qs.get(k, []):
-            if v not in seen:
-                seen.add(v)
-                o['urls'].append([v, ref_is_url(v)])
+            for w in (v, v.replace(' ', '+')):       # MonitoredList coerces tr/ws items twice (see Model mkUrl2)
+                if w not in seen:
+                    seen.add(w)
+                    o['urls'].append([w, ref_is_url(w)])
     for v in qs.get('xl', []):
         try:
             o['ints'].append([v, pyval._int_str(int(v))])
